@@ -70,6 +70,8 @@ def gen_workload(tape, spec, pil):
             else:
                 nxt = [tape.choice('q2', [0.5, 0.7])]
             wl['second'] = (wl['n_samples'], {key: nxt})
+        if 'second' in wl and tape.chance('manual_middle', 1, 2):
+            wl['manual_middle'] = True
     return wl
 
 
@@ -78,6 +80,13 @@ def do_calls(run, wl):
     if 'second' in wl and res[0] is not None:
         run.drain()
         n2, obj2 = wl['second']
+        if wl.get('manual_middle'):
+            # hand-driven continuation (set_objective + iterate + extract_result) between two
+            # sample() calls; what it leaves behind must not leak into the next call
+            res.append(run.drive_manually(n2, **obj2))
+            if res[-1] is None:
+                return res
+            run.drain()
         res.append(run.sample(n2, **obj2))
     return res
 
